@@ -50,7 +50,7 @@ Definition set_args (l : lost) (g k : N) : lost := mkLo g k (base l) (found l) (
 Definition do_act (a : act) (s : shst) (l : lost) : shst * lost :=
   let g := ag l in let k := ak l in
   match a with
-  | XLocal | XRead | XMutOther => (s, l)
+  | XLocal | XRead | XMutOther | XNewLock => (s, l)   (* XNewLock is rejected by every automaton: never executed by an accepted program *)
   | XTest c => (s, set_found l (existsb (fun n => (ncell n =? cellof c g) && (ngid n =? g)) (nodes s)))
   | XRdBase c => (s, set_base l (getc (ctrs s) (cellof c g)))
   | XBase1 => (s, set_base l 1)
